@@ -175,8 +175,13 @@ class RouterInfoCache:
             if _debug: RouterInfoCache._debug("    - no router references: %r", list(self.routers.keys()))
             return
 
-        # move the router info records to the new net
-        snet_routers = self.routers[new_snet] = self.routers.pop(old_snet)
+        # move the router info records to the new net, whatever was filed
+        # under the new number is replaced so its paths go as well
+        snet_routers = self.routers.pop(old_snet)
+        for router_info in self.routers.get(new_snet, {}).values():
+            for dnet in router_info.dnets:
+                del self.path_info[(new_snet, dnet)]
+        self.routers[new_snet] = snet_routers
 
         # update the paths
         for address, router_info in snet_routers.items():
